@@ -34,6 +34,12 @@ pub enum Case {
     /// identically in three caches; every read-side call must then agree across the flavours
     /// (no model: the statement is equivalence "whatever the cache holds")
     Hostile { keys: Vec<String>, good_first: bool, recs: Vec<super::c20::HostileRec> },
+    /// the program runs in three single-threaded driver processes (sync / async-std / tokio), each
+    /// with its own working directory and the cache given as the RELATIVE path `cache`; steps may
+    /// change the working directory, also between the last chunk of a write and its commit. No
+    /// model (what a relative path means across a chdir is the implementation's choice): the
+    /// three flavours must make the same choice.
+    RelCwd { prog: Program },
 }
 
 pub struct C12;
@@ -303,6 +309,120 @@ impl C12 {
     }
 }
 
+fn rel_tree(root: &std::path::Path) -> Vec<(String, u64)> {
+    let mut v: Vec<(String, u64)> = reffmt::walk_files(root)
+        .into_iter()
+        .filter(|(rel, _)| !rel.contains("/tmp/") && !rel.ends_with(".json") && !rel.ends_with(".jsonl"))
+        .map(|(rel, _)| {
+            let len = std::fs::symlink_metadata(root.join(&rel)).map(|m| m.len()).unwrap_or(0);
+            (rel, len)
+        })
+        .collect();
+    v.sort();
+    v
+}
+
+impl C12 {
+    fn run_relcwd(&self, case: &Case, prog: &Program, st: &mut Stats, env: &mut WorkerEnv) -> Result<(), String> {
+        env.scratch.reset();
+        let own = crate::sup::driver_path();
+        let other = other_driver();
+        let (as_drv, tk_drv) = if crate::rt::BUILD == "tokio" { (other.clone(), own.clone()) } else { (own.clone(), other.clone()) };
+        let flav: [(&str, &std::path::Path, Fl); 3] = [("sync", &as_drv, Fl::Sync), ("async-std", &as_drv, Fl::Async), ("tokio", &tk_drv, Fl::Async)];
+        let mut outs: Vec<Vec<Out>> = Vec::new();
+        let mut trees = Vec::new();
+        for (i, (name, drv, fl)) in flav.iter().enumerate() {
+            let root = env.scratch.root.join(format!("rel{i}"));
+            let _ = std::fs::remove_dir_all(&root);
+            std::fs::create_dir_all(root.join("scratch")).map_err(|e| format!("INFRA: {e}"))?;
+            let p = Program { keys: prog.keys.clone(), blobs: prog.blobs.clone(), steps: prog.steps.iter().map(|s| Step { op: s.op.clone(), fl: if s.op.is_harness_side() { Fl::Sync } else { *fl } }).collect() };
+            let pf = root.join("prog.json");
+            std::fs::write(&pf, serde_json::to_string(&p).unwrap()).map_err(|e| format!("INFRA: {e}"))?;
+            let of = root.join("out.jsonl");
+            let o = Command::new(drv)
+                .args(["exec", "--cache", "cache", "--scratch"])
+                .arg(root.join("scratch"))
+                .arg("--prog")
+                .arg(&pf)
+                .args(["--from", "0", "--to", &p.steps.len().to_string(), "--out"])
+                .arg(&of)
+                .current_dir(&root)
+                .stdin(Stdio::null())
+                .stdout(Stdio::null())
+                .stderr(Stdio::piped())
+                .output()
+                .map_err(|e| format!("INFRA: cannot run {}: {e}", drv.display()))?;
+            if !o.status.success() {
+                return Err(format!("the {name} driver process ended abnormally: {:?} {}", o.status, String::from_utf8_lossy(&o.stderr)));
+            }
+            let v = crate::sup::read_outs(&of)?;
+            st.eval(v.len() as u64);
+            for (k, out, _, _) in &v {
+                if out.is_panic() {
+                    return Err(format!("{} through {name} (relative cache path): {}", basic::describe_step(prog, *k), out.short()));
+                }
+            }
+            outs.push(v.into_iter().map(|(_, o, _, _)| normalise(&o, &Model::new(), &["7".to_string()])).collect());
+            trees.push(rel_tree(&root));
+        }
+        for e in 1..3 {
+            for (k, (a, b)) in outs[0].iter().zip(&outs[e]).enumerate() {
+                if a != b {
+                    return Err(format!(
+                        "relative cache path, working directory changing: {}: {} gives {} but {} gives {}",
+                        basic::describe_step(prog, k),
+                        flav[0].0,
+                        a.short(),
+                        flav[e].0,
+                        b.short()
+                    ));
+                }
+            }
+            if trees[e] != trees[0] {
+                let d: Vec<_> = trees[e].iter().filter(|x| !trees[0].contains(x)).chain(trees[0].iter().filter(|x| !trees[e].contains(x))).take(6).collect();
+                return Err(format!("relative cache path, working directory changing: {} and {} leave different trees behind, e.g. {:?}", flav[0].0, flav[e].0, d));
+            }
+        }
+        st.class("relative_cache_path_with_chdir");
+        st.class("nontrivial");
+        st.nontrivial(hash_of(case));
+        st.sample(|| serde_json::to_value(case).unwrap());
+        Ok(())
+    }
+}
+
+fn relcwd_family() -> Vec<Program> {
+    let keys = vec!["rel".to_string(), "other".to_string()];
+    let blobs = vec![crate::blob::Blob::new(50, 1), crate::blob::Blob::new(9, 2)];
+    let mut out = Vec::new();
+    for keyed in [true, false] {
+        for declare in [Declare::None, Declare::Exact] {
+            for mid in [Some(3usize), None] {
+                let mut w = WriteSpec::simple(if keyed { Some(0) } else { None }, 0);
+                w.entry = WEntry::Opts;
+                w.chunks = vec![10];
+                w.declare = declare;
+                w.chdir_mid = mid;
+                let a = AddrRef { algo: crate::blob::Algo::Sha256, blob: 0 };
+                let mut steps = vec![Step { op: Op::Write(WriteSpec::simple(Some(1), 1)), fl: Fl::Sync }, Step { op: Op::Write(w), fl: Fl::Sync }];
+                let look = |steps: &mut Vec<Step>| {
+                    steps.push(Step { op: Op::Meta { key: 0 }, fl: Fl::Sync });
+                    steps.push(Step { op: Op::Read { key: 0 }, fl: Fl::Sync });
+                    steps.push(Step { op: Op::ReadHash { addr: a }, fl: Fl::Sync });
+                    steps.push(Step { op: Op::Read { key: 1 }, fl: Fl::Sync });
+                };
+                look(&mut steps);
+                steps.push(Step { op: Op::Chdir { dir: 4 }, fl: Fl::Sync });
+                look(&mut steps);
+                steps.push(Step { op: Op::Write(WriteSpec::simple(Some(0), 1)), fl: Fl::Sync });
+                look(&mut steps);
+                out.push(Program { keys: keys.clone(), blobs: blobs.clone(), steps });
+            }
+        }
+    }
+    out
+}
+
 impl Engine for C12 {
     type Case = Case;
     fn id(&self) -> &'static str {
@@ -326,6 +446,12 @@ impl Engine for C12 {
             "the remote executor is the other build's driver binary under /verif/target (built by the same check)".into(),
         ]
     }
+    fn exhaustive(&self, _tier: Tier) -> Vec<Case> {
+        relcwd_family().into_iter().map(|prog| Case::RelCwd { prog }).collect()
+    }
+    fn exhaustive_note(&self, _tier: Tier) -> String {
+        "fixed family: 8 programs run in three driver processes with the cache given as a relative path and the working directory changing between calls and between the last chunk and the commit of a write".into()
+    }
     fn random_cases(&self, tier: Tier) -> u32 {
         tier.pick(800, 25000)
     }
@@ -343,6 +469,7 @@ impl Engine for C12 {
         let c = match c {
             Case::Prog(p) => p,
             Case::Hostile { keys, good_first, recs } => return self.run_hostile(c, keys, *good_first, recs, st, env),
+            Case::RelCwd { prog } => return self.run_relcwd(c, prog, st, env),
         };
         let prog = &c.prog;
         let addrs = basic::addr_universe(prog);
